@@ -794,8 +794,12 @@ func (ot *objectTree) Delete() error {
 	if ot.isDeleted {
 		return nil
 	}
+	// mark the tree deleted only once its storage is gone, so a failed delete can be retried
+	if err := ot.storage.Delete(context.Background()); err != nil {
+		return err
+	}
 	ot.isDeleted = true
-	return ot.storage.Delete(context.Background())
+	return nil
 }
 
 func (ot *objectTree) SnapshotPath() ([]string, error) {
